@@ -155,8 +155,8 @@ def _main(argv=None):
         else:
             new.append(v)
     for k, (f, v) in seen_known.items():
-        print(f"KNOWN-FINDING: property={pid} {f.get('desc', v['desc'])}"
-              f" [key={k}]", flush=True)
+        desc = ' '.join(str(f.get('desc', v['desc'])).split())
+        print(f"KNOWN-FINDING: property={pid} {desc} [key={k}]", flush=True)
     rc = 0
     if new:
         rc = 1
@@ -172,7 +172,7 @@ def _main(argv=None):
                 dict(property=pid, key=v['key'], desc=v['desc'],
                      replay=v['replay']), indent=1, default=str))
             if len(shown) <= 25:
-                print(f'  {v["desc"][:300]}', flush=True)
+                print('  ' + ' '.join(v['desc'].split())[:300], flush=True)
                 print(f'VIOLATION property={pid} replay={path}', flush=True)
         if len(shown) > 25:
             print(f'  (+{len(shown) - 25} more violations; replay files '
@@ -230,5 +230,8 @@ def pmap(ctx, modname, fnname, args, need_substrate=True, init=None,
         _winit(need_substrate, init)
         return [_wcall((modname, fnname, a)) for a in args]
     pool = _get_pool(ctx.nproc, need_substrate, init)
-    return pool.map(_wcall, [(modname, fnname, a) for a in args],
-                    chunksize=chunksize)
+    # map_async + timeout: a results thread that dies (e.g. unpicklable
+    # result in this process) must surface as an error, not as a hang
+    return pool.map_async(
+        _wcall, [(modname, fnname, a) for a in args],
+        chunksize=chunksize).get(timeout=6 * 3600)
